@@ -5,6 +5,8 @@
 
 From Servitor Require Import Base Jtp Request.
 From Servitor.Facts Require Import RequestFacts.
+From Servitor Require Import Mime Json Object Webfinger.
+From Servitor.Facts Require Import WebfingerFacts.
 
 (* what is written parses as exactly one request with exactly these fields (components of a parsed URL contain no CR/LF: net/url rejects control characters) *)
 Theorem request_shape :
@@ -51,3 +53,97 @@ Theorem request_needs_dial :
   (snd (get W is_https resolve tolerated cap b c u)).
 Proof. exact request_needs_dial_fact. Qed.
 Print Assumptions request_needs_dial.
+
+(* WEBFINGER (what the user types after @): the name is split at its first @ *)
+Theorem split_at_spec :
+  forall t a d : bytes, split_at t = Some (a, d) <-> t = a ++ AT_B :: d /\ ~ In AT_B a.
+Proof. exact split_at_spec_fact. Qed.
+Print Assumptions split_at_spec.
+
+Theorem split_at_none :
+  forall t : bytes, split_at t = None <-> ~ In AT_B t.
+Proof. exact split_at_none_fact. Qed.
+Print Assumptions split_at_none.
+
+(* the account and domain enter the query through QueryEscape, which emits only unreserved characters, + and percent escapes *)
+Theorem query_escape_chars :
+  forall bs : list N, Forall is_byte bs -> forallb uri_char (query_escape bs) = true.
+Proof. exact query_escape_chars_fact. Qed.
+Print Assumptions query_escape_chars.
+
+Theorem query_escape_no_crlf_sp :
+  forall bs : list N, Forall is_byte bs -> no_crlf_sp (query_escape bs) = true.
+Proof. exact query_escape_no_crlf_sp_fact. Qed.
+Print Assumptions query_escape_no_crlf_sp.
+
+(* what was typed cannot add a parameter, a fragment or a path segment *)
+Theorem query_escape_no_delims :
+  forall (bs : list N) (c : N),
+  Forall is_byte bs ->
+  In c (query_escape bs) -> c <> 38%N /\ c <> 35%N /\ c <> 61%N /\ c <> 63%N /\ c <> 47%N.
+Proof. exact query_escape_no_delims_fact. Qed.
+Print Assumptions query_escape_no_delims.
+
+(* and the server decodes exactly what was typed *)
+Theorem query_escape_roundtrip :
+  forall bs : list N, Forall is_byte bs -> query_unescape (query_escape bs) = Some bs.
+Proof. exact query_escape_roundtrip_fact. Qed.
+Print Assumptions query_escape_roundtrip.
+
+Theorem query_escape_injective :
+  forall a b : list N,
+  Forall is_byte a -> Forall is_byte b -> query_escape a = query_escape b -> a = b.
+Proof. exact query_escape_injective_fact. Qed.
+Print Assumptions query_escape_injective.
+
+Theorem wf_uri_shape :
+  forall acct dom : list N,
+  Forall is_byte acct ->
+  Forall is_byte dom ->
+  wf_uri acct dom <> [] /\
+  no_crlf_sp (wf_uri acct dom) = true /\
+  (exists q : list N,
+  wf_uri acct dom = wf_prefix ++ q /\
+  query_unescape q = Some (s_acct ++ acct ++ AT_B :: dom)).
+Proof. exact wf_uri_shape_fact. Qed.
+Print Assumptions wf_uri_shape.
+
+(* the bytes written for a lookup are exactly one request line, one Host and one Accept header whatever account was typed (a domain containing CR or LF never resolves, so nothing is sent for it: request_needs_dial) *)
+Theorem wf_request_shape :
+  forall acct dom : list N,
+  Forall is_byte acct ->
+  Forall is_byte dom ->
+  no_crlf dom = true ->
+  parse_request (request_bytes (wf_uri acct dom) dom jrd_accept) =
+  Some (wf_uri acct dom, dom, jrd_accept).
+Proof. exact wf_request_shape_fact. Qed.
+Print Assumptions wf_request_shape.
+
+(* without an @ nothing is sent *)
+Theorem wf_no_at :
+  forall (W : url -> entry) (is_https : url -> bool) (resolve : url -> bytes -> option url)
+  (cap : nat) (mk_url : bytes -> bytes -> url) (c : cache) (name : list N),
+  ~ In AT_B name -> resolve_webfinger W is_https resolve cap mk_url c name = (WFNoAt, c, []).
+Proof. exact wf_no_at_fact. Qed.
+Print Assumptions wf_no_at.
+
+(* every request of a lookup is https, needs a successful dial, and there are at most MAX_REDIRECTS+1 of them *)
+Theorem wf_requests :
+  forall (W : url -> entry) (is_https : url -> bool) (resolve : url -> bytes -> option url)
+  (cap : nat) (mk_url : bytes -> bytes -> url) (c : cache) (name : bytes),
+  let
+  '(_, _, log) := resolve_webfinger W is_https resolve cap mk_url c name in
+  Forall (fun r : url => is_https r = true /\ e_dial (W r) = true) log /\
+  length log <= S Client.MAX_REDIRECTS.
+Proof. exact wf_requests_fact. Qed.
+Print Assumptions wf_requests.
+
+Theorem wf_first_request :
+  forall (W : url -> entry) (is_https : url -> bool) (resolve : url -> bytes -> option url)
+  (cap : nat) (mk_url : bytes -> bytes -> url) (c : cache) (name acct dom : bytes)
+  (r : url) (log' : list url),
+  split_at name = Some (acct, dom) ->
+  snd (resolve_webfinger W is_https resolve cap mk_url c name) = r :: log' ->
+  r = mk_url dom (wf_uri acct dom).
+Proof. exact wf_first_request_fact. Qed.
+Print Assumptions wf_first_request.
